@@ -355,7 +355,7 @@ func (g *simGen) stmts() []*stmt {
 		}
 		return []*stmt{{k: sError, exps: []*expr{g.errVal()}, level: lvl}}
 	case 13:
-		return []*stmt{{k: sRtErr, n: int64(g.t.Choose(4))}}
+		return []*stmt{{k: sRtErr, n: int64(g.t.Choose(11))}}
 	case 15:
 		// K = 0; [local x <close> = mkc()]; ::top::; K = K + 1; do body end; if K < n then goto top end
 		// (nothing is declared in this block between the label and the goto)
